@@ -4,6 +4,7 @@ import S2T.Gen.Exceptions
 import S2T.Gen.Wrappers
 import S2T.Gen.Loops
 import S2T.Props.C01_Regex
+import S2T.Props.C01_Iter
 /-!
 # C01 — stable failure surface (and CLI discipline, loop inventory)
 
